@@ -10,6 +10,8 @@ func vC02Target(i int) int { return i + 1 }
 func vC02CbA(i int) int    { return i + 1000 }
 func vC02CbB(i int) int    { return i + 2000 }
 
+var vC02NotAFunc int
+
 var vC02Ops = [6]string{"op0", "op1", "op2", "op3", "op4", "op5"}
 
 func vEntryPristine(snap int, target interface{}, id string) {
@@ -37,7 +39,18 @@ func vRetained(K int) {
 	m := b.Func(vC02Target)
 	live := false
 	for step := 0; step < K; step++ {
-		switch verifChoice(vC02Ops[step], 5) {
+		switch verifChoice(vC02Ops[step], 6) {
+		case 5:
+			// a re-apply that goom rejects (an origin placeholder that is not a function):
+			// the caller recovers the panic; whatever was installed before stays as it was
+			func() {
+				defer func() {
+					m.Origin(nil)
+					recover()
+				}()
+				m.Origin(&vC02NotAFunc).Apply(vC02CbB)
+				verifAssert(false, "C02.retained.bad-origin-is-rejected")
+			}()
 		case 0:
 			m.Apply(vC02CbA)
 			live = true
